@@ -51,10 +51,10 @@ PROPS["C04"] = dict(
     kani=["pairs_enum"], searcher=["pairs", "state"],
     design_ref="DESIGN.md section 4, C04",
     technique="contract-based deductive verification (Verus): recursive closed-forest predicate as part of the frame law of every ParserState operation; precondition of pairs::new discharged in state()",
-    level_text="Part (a), emission: proved for all call trees of lawful closures that the tokens appended by any operation form a closed forest (balanced, properly nested, positions non-decreasing, on UTF-8 boundaries, within the text walked), hence every successful parse hands pairs::new a well-formed stream. Part (b), views: pairs::new, Pairs, Pair, Tokens, FlatPairs (len exact after any mix of next / next_back since the F5 fix) and the PairsBuilder API are verified against the sequence of top-level Start indices / Start tokens in the window; node-tag, text and JSON views are decided by a bounded enumeration only.",
-    level_note="As C03. Display/Debug/JSON/concat views build strings through format!/serde and are outside the Verus subset; the node-tag views and the text views are decided only by the pairs_search enumeration in the quick tier (bounded stand-in, not counted).",
+    level_text="Part (a), emission: proved for all call trees of lawful closures that the tokens appended by any operation form a closed forest (balanced, properly nested, positions non-decreasing, on UTF-8 boundaries, within the text walked), hence every successful parse hands pairs::new a well-formed stream. Part (b), views: pairs::new, Pairs, Pair, Tokens, FlatPairs (len exact after any mix of next / next_back since the F5 fix) and the PairsBuilder API are verified against the sequence of top-level Start indices / Start tokens in the window; Pair::as_node_tag returns exactly the tag recorded on the pair's End token (R41 + an assumed std contract for Borrow<T> for &T); the filtered tag searches, text and JSON views are decided by a bounded enumeration only.",
+    level_note="As C03. Display/Debug/JSON/concat views build strings through format!/serde and are outside the Verus subset; the filtered node-tag searches (find_tagged, find_first_tagged) and the text views are decided only by the pairs_search enumeration in the quick tier (bounded stand-in, not counted).",
     assumptions=CORE_ASSUME, not_covered=CORE_NOT_COVERED + ["Display, alternate Display, Debug, to_json: format!/serde code outside every contract - decided only by the pairs_search enumeration (bounded stand-in; known finding F6 for the empty top-level Pairs)",
-        "node-tag views (as_node_tag, find_tagged, find_first_tagged: Filter<FlatPairs, impl FnMut>) are iterator-adaptor code outside every contract: decided only by the pairs_search enumeration (bounded stand-in, every forest of <= 3 nodes x every tag assignment)"],
+        "node-tag searches (find_tagged, find_first_tagged: Filter<FlatPairs, impl FnMut>) are iterator-adaptor code outside every contract: decided only by the pairs_search enumeration (bounded stand-in, every forest of <= 3 nodes x every tag assignment)"],
 )
 PROPS["C08"] = dict(
     title="Failure reports point at the furthest failure with sound expectations",
@@ -93,13 +93,13 @@ PROPS["C10"] = dict(
     kani=["inmod_c10", "lines_enum"], searcher=["lines"],
     design_ref="DESIGN.md section 4, C10",
     technique="contract-based deductive verification (Verus) of the index arithmetic over vstd's UTF-8 theory; bounded Kani harnesses for the iterator-chain functions and an exhaustive native enumeration of short texts for the clauses outside every contract (error construction and rendering)",
-    level_text="Unbounded proof: LineIndex::new records exactly the offsets after every newline character (loop invariant over chars()); LineIndex::line_col returns (1 + newlines before the offset, 1 + characters since the last newline) for every boundary offset inside the indexed prefix; Span::new / Position::new succeed exactly on ordered boundary offsets; merge_spans; find_line_start / find_line_end return exactly the byte-level line start ls / line end le (their iterator chains desugared by R33 over assumed std contracts of CharIndices; a 0x0A byte is proved to occur only as the one-byte character '\\n'); line_of, LinesSpan::next and Lines::next yield exactly the line [ls, le) containing the cursor (as a span / as its text) and advance to the start of the next line; lines_span / lines start at the span's start; Error::new_from_pos, new_from_pos_with_parsing_attempts and new_from_span record exactly the given variant, the offset(s) and the (line, column) pair(s) of the definition (a span end at column 1 is reported one column after the character before it - Position::skip_back, verified: goes back exactly n characters).",
-    level_note="Assumed: std contracts only - CharIndices (next / next_back yield (byte offset, char) in order), Peekable, partition_point, chars().count(), str range indexing helper. Position::line_col is verified from its body (chars().peekable() through assumed std contracts of core::iter::Peekable, R31/R32): it returns exactly (1 + newlines, 1 + characters since the last newline) of the characters before the offset. The displayed text fields of the errors go through trusted helpers without a contract (visualize_whitespace, R39 str::replace, R40: the statement run of new_from_span that computes the two text fields) Position::match_char - which only selects the helper - is verified from its body. Outside every contract: those text fields and Display (format!, String building) - decided only by bounded stand-ins: the lines_search enumeration (every text of <= 5 characters over a 6-character mixed alphabet, every offset and offset pair, all access paths, rendered marker position).",
-    assumptions=["Verus + Z3 + vstd (UTF-8 theory); extractor with rewrites R3,R5,R6,R11,R16,R17,R23,R15,R31,R32,R33,R39,R40,R41 and the free rules",
+    level_text="Unbounded proof: LineIndex::new records exactly the offsets after every newline character (loop invariant over chars()); LineIndex::line_col returns (1 + newlines before the offset, 1 + characters since the last newline) for every boundary offset inside the indexed prefix; Span::new / Position::new succeed exactly on ordered boundary offsets; Span::get builds a sub-span only from ordered boundary offsets inside the span and none of its bound computations overflows (finding F8, fixed); merge_spans; find_line_start / find_line_end return exactly the byte-level line start ls / line end le (their iterator chains desugared by R33 over assumed std contracts of CharIndices; a 0x0A byte is proved to occur only as the one-byte character '\\n'); line_of, LinesSpan::next and Lines::next yield exactly the line [ls, le) containing the cursor (as a span / as its text) and advance to the start of the next line; lines_span / lines start at the span's start; Error::new_from_pos, new_from_pos_with_parsing_attempts and new_from_span record exactly the given variant, the offset(s) and the (line, column) pair(s) of the definition (a span end at column 1 is reported one column after the character before it - Position::skip_back, verified: goes back exactly n characters); they establish the column bounds (cols_ok) under which Error::underline - verified from its body, three loops - never underflows and returns a row whose first `^` stands exactly under the reported column, preceded only by padding that repeats the displayed line's tabs; Error::spacing (the gutter) is as many blanks as the largest line number shown has decimal digits (R42: format!(..).len() of a usize through an assumed std contract).",
+    level_note="Assumed: std contracts only - CharIndices (next / next_back yield (byte offset, char) in order), Peekable, partition_point, chars().count(), str range indexing helper. Position::line_col is verified from its body (chars().peekable() through assumed std contracts of core::iter::Peekable, R31/R32): it returns exactly (1 + newlines, 1 + characters since the last newline) of the characters before the offset. The displayed text fields of the errors go through trusted helpers without a contract (visualize_whitespace, R39 str::replace, R40: the statement run of new_from_span that computes the two text fields) Position::match_char - which only selects the helper - is verified from its body. Outside every contract: those text fields, Error::format / Display (format!, String building; format() is the only caller of underline, so the call-site precondition cols_ok is established by the constructors' postcondition but not checked at a contracted call site; the fields of Error are public: an error whose line_col was overwritten by hand is outside the property) - decided only by bounded stand-ins: the lines_search enumeration (every text of <= 5 characters over a 6-character mixed alphabet, every offset and offset pair, all access paths, rendered marker position).",
+    assumptions=["Verus + Z3 + vstd (UTF-8 theory); extractor with rewrites R3,R5,R6,R11,R16,R17,R23,R15,R17,R31,R32,R33,R39,R40,R41,R42 and the free rules",
                  "std contracts on trusted helpers: core::iter::Peekable (peekable / next / peek: the remaining items), partition_point (on a sorted Vec<usize>), chars().count(), str range indexing, str::get -> SliceIndex::get, core::cmp::min/max on usize",
                  "std contracts for core::str::CharIndices (next / next_back) and the helper vx_char_indices: the items are (off(cs,k), cs[k]) in order"],
     not_covered=["the text fields of Error (line, continued_line) and Display rendering: format!/String code, decided by the lines_search enumeration only (bounded)",
-                 "Span::get(range: impl RangeBounds): RangeBounds has no specification; decided by the lines_search enumeration only (bounded)"],
+                 "Span::get: that a sub-span IS returned for every valid range (the converse direction) is decided by the lines_search enumeration only (bounded); the contract covers containment, well-formedness and absence of overflow"],
 )
 
 PROPS["C16"] = dict(
